@@ -24,8 +24,33 @@ const (
 type Sut struct {
 	Path string
 	BS   uint32
-	f    *os.File
+	f    *faultFile
 	hs   *index.HashSet
+}
+
+// faultFile is the set's file with one injectable fault: once armed, the next Read fails (once).
+type faultFile struct {
+	*os.File
+	armed, fired bool
+}
+
+var errInjected = fmt.Errorf("injected read error")
+
+func (f *faultFile) Read(p []byte) (int, error) {
+	if f.armed && !f.fired {
+		f.fired = true
+		return 0, errInjected
+	}
+	return f.File.Read(p)
+}
+
+// FlushWithReadFault runs Flush with the fault armed; fired tells whether Flush read the file at all.
+func (s *Sut) FlushWithReadFault() (err error, fired bool) {
+	s.f.armed, s.f.fired = true, false
+	err, _ = safely(s.hs.Flush)
+	fired = s.f.fired
+	s.f.armed = false
+	return
 }
 
 // safely turns a panic of the library into an error marked as such.
@@ -45,8 +70,8 @@ func Create(path string, bs int) (*Sut, error) {
 	if err != nil {
 		return nil, err
 	}
-	s := &Sut{Path: path, BS: uint32(bs), f: f}
-	s.hs, err = index.NewHashSet(f, s.BS)
+	s := &Sut{Path: path, BS: uint32(bs), f: &faultFile{File: f}}
+	s.hs, err = index.NewHashSet(s.f, s.BS)
 	if err != nil {
 		f.Close()
 		return nil, err
@@ -73,8 +98,8 @@ func (s *Sut) Reopen() (error, bool) {
 		if err != nil {
 			return err
 		}
-		s.f = f
-		s.hs, err = index.NewHashSet(f, s.BS)
+		s.f = &faultFile{File: f}
+		s.hs, err = index.NewHashSet(s.f, s.BS)
 		return err
 	})
 }
